@@ -2,7 +2,7 @@
 use super::searchlib::*;
 use crate::engine::search::PersistentState;
 use crate::framework::*;
-use crate::refchess::Pos;
+use crate::refchess::{Kind, Pc, Pos};
 use proptest::strategy::Strategy;
 use serde::{Deserialize, Serialize};
 use serde_json::json;
@@ -215,6 +215,49 @@ pub fn run(run: &mut Run) -> &'static str {
         },
         Case::Explicit { hash_mb, searches } => run_list(*hash_mb, searches, st),
     });
+    // deep searches (depth 14-19) of sparse mating endgames on an empty table: principal-variation
+    // nodes with a great remaining depth and mate scores as window bounds exist only here
+    // (the semantic oracle is what matters at this depth: the part runs in the fast profile when that
+    // binary is available, and in this process otherwise and for replays)
+    let deep_here = profile_name() == "fast" || std::env::var("VERIF_FAST_BIN").is_err() || !run.only_parts.is_empty() || run.replay.is_some();
+    let cases = tier.pick(160, 4_000);
+    let strat = tape(12..40).prop_map(Case::Tape);
+    if deep_here {
+    run.proptest_part("deep_mating_endgames", RULE, strat, cases, move |c: &Case, st: &mut Stats| match c {
+        Case::Tape(data) => {
+            let mut t = Tape::new(data);
+            let mut p = Pos::empty();
+            let strong = t.pick(2) == 0;
+            // (rook and queen endings are cheap to search deeply and have the longest forced mates)
+            let men: &[Kind] = [&[Kind::R][..], &[Kind::R], &[Kind::R], &[Kind::R], &[Kind::R], &[Kind::R], &[Kind::Q], &[Kind::Q], &[Kind::Q, Kind::P], &[Kind::R, Kind::P], &[Kind::R, Kind::R], &[Kind::Q, Kind::R], &[Kind::B, Kind::B], &[Kind::P, Kind::P], &[Kind::R], &[Kind::Q]][t.pick(16)];
+            let mut place = |p: &mut Pos, t: &mut Tape, pc: Pc| {
+                for _ in 0..8 {
+                    let s = t.pick(64);
+                    if p.board[s].is_none() && !(pc.kind == Kind::P && (s < 8 || s >= 56)) {
+                        p.board[s] = Some(pc);
+                        return;
+                    }
+                }
+            };
+            place(&mut p, &mut t, Pc::new(true, Kind::K));
+            place(&mut p, &mut t, Pc::new(false, Kind::K));
+            for k in men {
+                place(&mut p, &mut t, Pc::new(strong, *k));
+            }
+            p.white_to_move = t.pick(2) == 0;
+            p.fullmove = 1 + t.pick(60) as u32;
+            if p.validate().is_err() || p.legal_moves().is_empty() {
+                st.discard();
+                return Ok(());
+            }
+            let depth = if men.len() == 1 { 16 + t.pick(4) as u8 } else { 15 + t.pick(if tier == Tier::Quick { 2 } else { 5 }) as u8 };
+            let hash_mb = [1usize, 2, 16, 16][t.pick(4)];
+            st.class("deep_search_of_a_sparse_ending");
+            run_list(hash_mb, &[SearchSpec { fen: p.to_fen(), moves: vec![], limit: Limit::Depth(depth) }], st)
+        }
+        Case::Explicit { hash_mb, searches } => run_list(*hash_mb, searches, st),
+    });
+    }
     if profile_name() == "checked" && super::ucilib::engine_available() {
         let cases = tier.pick(400, 6_000);
         let strat = tape(16..120).prop_map(Case::Tape);
@@ -231,7 +274,7 @@ pub fn run(run: &mut Run) -> &'static str {
     }
     if let Ok(bin) = std::env::var("VERIF_FAST_BIN") {
         if profile_name() == "checked" && run.only_parts.is_empty() {
-            run_sub_process(run, &bin, &["searches"]);
+            run_sub_process(run, &bin, &["searches", "deep_mating_endgames"]);
         }
     }
     RULE
